@@ -135,6 +135,14 @@ impl<D: DataMut> GLWESecret<D> {
     }
 }
 
+/// Verification hook (only with `--cfg poulpy_verif`): read-only view of the secret coefficients.
+#[cfg(poulpy_verif)]
+impl<D: Data> GLWESecret<D> {
+    pub fn verif_data(&self) -> &ScalarZnx<D> {
+        &self.data
+    }
+}
+
 pub trait GLWESecretToMut {
     fn to_mut(&mut self) -> GLWESecret<&mut [u8]>;
 }
